@@ -93,7 +93,7 @@ var soupAnnots = []string{"// note", "/* note */", "// multi\n", "/* a\n b */", 
 var soupBodies = []string{
 	"{}", "{\"id\": 1}", "[]", "[1, 2]", "1", "\"s\"", "null", "true", "@a", "@a | @b", "[@a]", "/ab+/", "/[a-/", "text line",
 	"{\"id\": 1 // {min: 0}\n}", "{\"a\": @a // {optional: true}\n}", "{\"k\": 1 // {enum: @e}\n}", "[\"x\", 1, null]", "[\"\", \"x\"]/*",
-	"{\"id\": @a | @b}", "{ // {allOf: \"@a\"}\n}", "{\"@a\": 1}", "12.5", "{\"id\": 1", "\"unterminated", "text ( with parens )",
+	"{\"id\": @a | @b}", "@a // {or: [\"uuid\",\"email\"], nullable:false}", "1 // {or: [\"integer\", \"string\"]}", "\"x\" // {or: [{type: \"string\", minLength: 1}, \"@a\"]}", "{ // {allOf: \"@a\"}\n}", "{\"@a\": 1}", "12.5", "{\"id\": 1", "\"unterminated", "text ( with parens )",
 }
 
 // genSoup produces up to maxLines directive lines with random parameters, annotations, parentheses and bodies.
